@@ -103,9 +103,29 @@ def real(case):
     out["form"] = canon_impl(cap.form) if cap.form is not None else None
     out["opt"] = call_timed(lambda: g1.mk_bpseq(seq, pairs).dot_bracket.structure)
     out["fcfs"] = call(lambda: g1.mk_bpseq(seq, pairs).fcfs.structure)
+    # 'the' notation of an object that was first asked through the other public entry points: the conversion without a
+    # solver (documented: first-come-first-served), the FCFS notation, a conversion whose solver fails
+    def after(first):
+        o = g1.mk_bpseq(seq, pairs)
+        call(lambda: first(o))
+        return call_timed(lambda: o.dot_bracket.structure)
+    import pulp
+
+    class Failing(pulp.LpSolver):
+        name = "FAILING"
+
+        def available(self):
+            return True
+
+        def actualSolve(self, lp, **kw):
+            raise pulp.PulpSolverError("injected")
+    out["opt_after_none"] = after(lambda o: o.convert_to_dot_bracket(None))
+    out["opt_after_fcfs"] = after(lambda o: o.fcfs)
+    out["opt_after_fault"] = after(lambda o: o.convert_to_dot_bracket(Failing(msg=False)))
     return out
 
 
+HISTORY_KEYS = ("opt_after_none", "opt_after_fcfs", "opt_after_fault")
 CLIQUE_LENGTHS = {}
 
 
@@ -120,7 +140,7 @@ def clique_score(lengths, levels):
 
 def real_plain(case):
     o = real(case)
-    return {k: o[k] for k in ("spy", "opt", "fcfs")}
+    return {k: o[k] for k in ("spy", "opt", "fcfs") + HISTORY_KEYS}
 
 
 def build_inputs(ctx):
@@ -167,7 +187,7 @@ def run(ctx):
     for ci, ((tag, (seq, pairs), sizes), o) in enumerate(zip(inputs, outs)):
         ps = g1.pstr(pairs)
         reqs.append(["ss.milp", seq, ps]); idx.append((ci, "milp"))
-        for k in ("opt", "spy", "fcfs"):
+        for k in ("opt", "spy", "fcfs") + HISTORY_KEYS:
             if o[k][0] == "ok":
                 reqs.append(["ss.levels", seq, ps, o[k][1]]); idx.append((ci, "lv_" + k))
     resp = ctx.driver.ask(reqs)
@@ -211,7 +231,7 @@ def run(ctx):
         res.count("family:" + tag.split(":")[0].rstrip("0123456789"))
         res.count("maxgroup=%d" % max(sizes or [0]))
         inp = {"seq": seq, "pairs": pairs, "family": tag}
-        for k in ("opt", "spy"):
+        for k in ("opt", "spy") + HISTORY_KEYS:
             if o[k][0] == "slow":
                 res.count("solver-slow:" + k)       # the external solver needed longer than the harness waits: not judged
                 continue
